@@ -1,4 +1,4 @@
-import GixModel.Lemmas.C20M4
+import GixModel.Lemmas.C20M5
 /-
 C20 — Reference updates are crash-consistent.  PROPERTY THEOREMS ONLY.
 
@@ -396,6 +396,117 @@ theorem commit_complete_modes (cd : Codec) (m : Mode) (c : Cfg) (s : Store) (txn
           lookupM_updated cd s .r txn h.names_nodup (by simp) n hx he]
       · have : cd.parseRef hx = some (.id hx) := cd.ref_rt (.id hx)
         simp [readOf, finalNM, hm, Edit.intended, this]
+
+/-- `reflogs_whole_lines` — in every mode, after a crash at ANY point every reflog file consists of
+whole lines: a reflog line is appended by ONE `write(2)` (fix a69d64dab; in the model one `append`
+step that does not go through `chunk`), so no prefix of the steps can tear it. (Reflogs of the
+initial state are modelled as empty files: the statement is about what the transaction writes.) -/
+theorem reflogs_whole_lines (m : Mode) (c : Cfg) (s : Store) (txn : List Edit) (h : TxnInput c s txn) (k : Nat)
+    (p : Path) (content : Bytes) (hp : isLogPath p = true)
+    (hf : fileAt (applyAll ((txnStepsM m c s txn).take k) s.toFs) p = some content) :
+    ∃ lines : List Bytes, content = lines.flatten ∧ ∀ l ∈ lines, l.getLast? = some 10 :=
+  logsWhole_applyAll (fun op ho => steps_lineSafe m c s txn h.names_ref op (List.mem_of_mem_take ho))
+    (init_logsWhole h.loose_ref) p content hp hf
+
+/-- `leftovers_are_locks_modes` — clause (4) for ALL three modes at the strength the harness checks on
+the real code: after a crash at any point, every file that is neither a file of the initial state
+nor a file of the state the complete transaction produces is a lock file. -/
+theorem leftovers_are_locks_modes (cd : Codec) (m : Mode) (c : Cfg) (s : Store) (txn : List Edit)
+    (h : TxnInput c s txn) (k : Nat) (p : Path)
+    (hp : (fileAt (applyAll ((txnStepsM m c s txn).take k) s.toFs) p).isSome = true) :
+    (fileAt s.toFs p).isSome = true ∨ (fileAt (applyAll (txnStepsM m c s txn) s.toFs) p).isSome = true ∨
+      isLockPath p = true := by
+  have hin := txnIn_of_input h
+  have hsplit : applyAll (txnStepsM m c s txn) s.toFs =
+      applyAll ((txnStepsM m c s txn).drop k) (applyAll ((txnStepsM m c s txn).take k) s.toFs) := by
+    rw [← applyAll_append, List.take_append_drop]
+  by_cases h0 : (fileAt s.toFs p).isSome = true
+  · exact .inl h0
+  · right
+    have hcr := files_grow (fun q => ∃ op ∈ txnStepsM m c s txn, q ∈ op.creates) ((txnStepsM m c s txn).take k)
+      (fun op ho q hq => ⟨op, List.mem_of_mem_take ho, hq⟩) s.toFs p hp
+    rcases hcr with hcr | ⟨op, ho, hq⟩
+    · exact absurd hcr h0
+    · have hsub : p ∈ op.touches := by cases op <;> simp_all [FsOp.creates, FsOp.touches]
+      rcases mem_steps_casesM m c s txn h.names_ref ho with h1 | h1 | h1
+      · cases op <;> simp_all [FsOp.creates, FsOp.isDirOp]
+      · have hd : op.isDirOp = false := by cases op <;> simp_all [FsOp.creates, FsOp.isDirOp]
+        rcases steps_logOpsM m c s txn h.names_ref ho h1 hd with ⟨n, hx, hu, rfl | rfl⟩ | ⟨n, _, rfl⟩
+        · simp [FsOp.creates] at hq; subst hq
+          left
+          rw [hsplit]
+          exact fileAt_persist _ _ _
+            (fun o ho' => update_log_staysM m c s txn hin hu o (List.mem_of_mem_drop ho')) hp
+        · simp [FsOp.creates] at hq
+        · simp [FsOp.creates] at hq
+      · rcases mem_core_casesM m c s txn h1 with rfl | hmm | ⟨e, he, hmm⟩
+        · simp [FsOp.creates] at hq; subst hq; exact .inr (isLockPath_lockPath _)
+        · rcases packedCommitM_touches m c s txn op hmm p hsub with rfl | rfl
+          · -- packed-refs: present means old (then it was there initially) or new (then it is there at the end)
+            left
+            have hpk := packed_old_or_new_modes cd m c s txn h.names_ref h.loose_ref h.chunk_ok h.no_packed_lock k
+            rcases hpk.1 with hh | hh
+            · rw [hh] at hp; exact absurd hp h0
+            · rw [hpk.2.2, ← hh]; exact hp
+          · exact .inr (isLockPath_lockPath _)
+        · rcases edit_core_touchesM m c s _ e op hmm p hsub with rfl | rfl
+          · -- the ref itself appears only through the rename, and then it has its final value
+            left
+            have hfin := (full_runM m c s txn hin e he).1
+            rw [hfin]
+            have hrename : op ∈ renameCoreM m e := by
+              simp only [List.mem_append] at hmm
+              rcases hmm with (hmm | hmm) | hmm
+              · exfalso
+                have hl : ∀ o ∈ prepCoreEdit c (s.hasGlobalLockM m txn) e, e.name ∉ o.creates := by
+                  intro o ho'
+                  cases e with
+                  | delete n =>
+                    simp only [prepCoreEdit] at ho'
+                    split at ho'
+                    · cases ho'
+                    · simp at ho'; subst ho'; simp [FsOp.creates, Edit.name]; exact (lock_ne_self n).symm
+                  | update n new =>
+                    simp only [prepCoreEdit, List.mem_cons, writeOps, List.mem_map] at ho'
+                    rcases ho' with rfl | ⟨x, _, rfl⟩
+                    · simp [FsOp.creates, Edit.name]; exact (lock_ne_self n).symm
+                    · simp [FsOp.creates]
+                cases e with
+                | delete n => exact hl op (by simpa [prepCoreEditM] using hmm) hq
+                | update n new =>
+                  cases new with
+                  | sym t => exact hl op (by simpa [prepCoreEditM] using hmm) hq
+                  | id hx =>
+                    simp only [prepCoreEditM] at hmm
+                    split at hmm
+                    · cases hmm
+                    · exact hl op hmm hq
+              · exact hmm
+              · exfalso
+                cases e with
+                | delete n =>
+                  simp only [delCoreM, delCore, List.mem_append] at hmm
+                  rcases hmm with hmm | hmm <;> (split at hmm <;> simp at hmm)
+                  all_goals (subst hmm; simp [FsOp.creates] at hq)
+                | update n new =>
+                  cases new with
+                  | sym t => simp [delCoreM, delCore] at hmm
+                  | id hx =>
+                    simp only [delCoreM] at hmm
+                    split at hmm
+                    · simp at hmm; subst hmm; simp [FsOp.creates] at hq
+                    · cases hmm
+            cases e with
+            | delete n => simp [renameCoreM, renameCore] at hrename
+            | update n new =>
+              cases new with
+              | sym t => rfl
+              | id hx =>
+                simp only [renameCoreM] at hrename
+                split at hrename
+                · cases hrename
+                · rename_i hm; simp [finalNM, hm]
+          · exact .inr (isLockPath_lockPath _)
 
 /-! ### non-vacuity -/
 
